@@ -121,8 +121,8 @@ Fixpoint pw_add (t : ty) (a b : value) {struct t} : res value :=
 Definition qs_add (p q : Q) : res Q := Ok (Qred (p + q)).
 Definition qs_sub (p q : Q) : res Q := Ok (Qred (p - q)).
 Definition qs_mul (p q : Q) : res Q := Ok (Qred (p * q)).
-Definition qs_div (p q : Q) : res Q := if Qeq_bool q 0 then Unsup else Ok (Qred (p / q)).
-Definition qs_neg (p : Q) : Q := Qred (- p).
+Definition qs_div (p q : Q) : res Q := if Qeq_dec q 0 then Unsup else Ok (Qred (p / q)).
+Definition qs_neg (p : Q) : Q := Qopp p.
 
 (* ------------------------------------------------------------------------------------------------ *)
 (* C18: plain containers                                                                            *)
